@@ -246,6 +246,15 @@ Denote(q, env, ev) ==
          LET x == Denote(q.ch[1], env, ev) IN
          IF Bad(x) THEN x ELSE x.v[CHOOSE i \in DOMAIN x.keys : x.keys[i] = q.a]
     [] q.k = "Math" -> MathApply(q.a, [i \in 1..q.n |-> Denote(q.ch[i], env, ev)])
+    \* C10: enum Color of class A (Red = 0, Blue = 1; q.n = index of the value named in the query):
+    \* EnumCmp  recv.color() == <Ns>.Color.<value>;   EnumArg  recv.colorIs(<Ns>.Color.<value>)
+    [] q.k \in {"EnumCmp", "EnumArg"} ->
+         LET r == Denote(q.ch[1], env, ev) IN
+         IF Bad(r) THEN r
+         ELSE LET c == Attr(ev, r, "color") IN
+              IF Bad(c) THEN c
+              ELSE IF q.k = "EnumCmp" THEN BoolV(c.n = q.n /\ c.d = 1)
+              ELSE Num("int", IF c.n = q.n /\ c.d = 1 THEN 1 ELSE 0, 1)
     [] q.k = "UserFn" -> UserApply(q.a, [i \in 1..Len(q.ch) |-> Denote(q.ch[i], env, ev)], ev)
     [] q.k \in {"Root", "Meta"} -> Denote(q.ch[1], env, ev)     \* Meta: a MetaData call, transparent
     [] OTHER -> Undef("no_denotation:" \o q.k)
@@ -356,9 +365,25 @@ TypeOf(q, tenv, sig) ==
     [] q.k = "DictGet" -> LET x == TypeOf(q.ch[1], tenv, sig) IN
                           x.v[CHOOSE i \in DOMAIN x.keys : x.keys[i] = q.a]
     [] q.k = "Math" -> NumT({"double"})
+    [] q.k = "EnumCmp" -> NumT({"bool"})
+    [] q.k = "EnumArg" -> NumT({"int"})
     [] q.k = "UserFn" -> IF FnMeaning(q.a) = "pair" THEN SeqT(NumT({"double"})) ELSE NumT({"double"})
     [] q.k \in {"Root", "Meta"} -> TypeOf(q.ch[1], tenv, sig)
     [] OTHER -> [t |-> "unknown"]
+
+\* C10: does the query call a method that has no declaration (then a warning must be logged,
+\* and only then)?  Walks the term with the same typing environment as TypeOf.
+RECURSIVE UndeclaredUse(_, _, _)
+UndeclaredUse(q, tenv, sig) ==
+  \/ /\ q.k = "Meth"
+     /\ LET r == TypeOf(q.ch[1], tenv, sig) IN r.t = "obj" /\ (r.c \o "." \o q.a) \notin sig.declared
+  \/ IF q.k \in {"Select", "Where", "SelectMany"}
+     THEN \/ UndeclaredUse(q.ch[1], tenv, sig)
+          \/ UndeclaredUse(q.ch[2], TBind(tenv, q.a, TypeOf(q.ch[1], tenv, sig).e), sig)
+     ELSE IF q.k = "Aggregate"
+     THEN \/ UndeclaredUse(q.ch[1], tenv, sig) \/ UndeclaredUse(q.ch[2], tenv, sig)
+          \/ UndeclaredUse(q.ch[3], TBind(TBind(tenv, q.a, TypeOf(q.ch[2], tenv, sig)), q.b, TypeOf(q.ch[1], tenv, sig).e), sig)
+     ELSE \E i \in DOMAIN q.ch : UndeclaredUse(q.ch[i], tenv, sig)
 
 ----------------------------------------------------------------------------
 (* Output schema: what the booked tree must look like, from the final expression alone. *)
